@@ -5,6 +5,25 @@ use crate::driver::{Cfg, Cmd, Driver};
 use crate::engine::{self, Item, Report, RunOpts, Sink, Violation};
 use crate::shadow::{self, EdgeClass, Product, END};
 
+/// which responder produced this application reply (from its shape)
+pub fn responder_of(rep: &[u8]) -> &'static str {
+    if rep.starts_with(b"HTTP/1.") {
+        "http"
+    } else if rep.starts_with(b"SSH-") {
+        "ssh"
+    } else if rep.starts_with(b"Gh0st") {
+        "ghost"
+    } else if rep.len() >= 20 && rep[0] == 0x01 && rep[1] == 0x01 && u16::from_be_bytes([rep[2], rep[3]]) as usize == rep.len() - 20 {
+        "stun"
+    } else if rep.len() >= 8 && (rep[4..8] == [0xff, b'S', b'M', b'B'] || rep[4..8] == [0xfe, b'S', b'M', b'B']) {
+        "smb"
+    } else if (rep.len() >= 12 && rep[4..8] == [0, 0, 0, 1] && rep[8..12] == [0, 0, 0, 0]) || (rep.len() >= 16 && rep[0] & 0x80 != 0 && rep[8..12] == [0, 0, 0, 1]) {
+        "rpc"
+    } else {
+        "other"
+    }
+}
+
 fn smack_cmds(w: &[u8], last: Option<u16>) -> Vec<Cmd> {
     // replay artefact: the byte string that reaches the event, as one matcher call from the
     // initial state, followed by the offending symbol
@@ -269,8 +288,17 @@ pub fn run(rep: &mut Report, thorough: bool) {
             }
             if pl.via != Via::UdpOnly {
                 scen.push((pi, fi, 1));
-                for cut in 1..=siglen.min(pl.bytes.len() - 1) {
+                let h = siglen.min(pl.bytes.len() - 1);
+                for cut in 1..=h {
                     scen.push((pi, fi, 2 + cut));
+                }
+                // two cuts inside the signature (one flow per IP version)
+                if fi % 3 == 0 {
+                    for a in 1..=h {
+                        for b in a + 1..=h {
+                            scen.push((pi, fi, 1000 + a * 64 + b));
+                        }
+                    }
                 }
             }
         }
@@ -288,6 +316,15 @@ pub fn run(rep: &mut Report, thorough: bool) {
             match mode {
                 0 => vec![Cmd::Frame(f.udp(pl))],
                 1 => vec![Cmd::Frame(f.tcp(1, 0, crate::wire::F_SYN, b"")), Cmd::Frame(f.tcp(2, c, crate::wire::F_PSH | crate::wire::F_ACK, pl))],
+                m if m >= 1000 => {
+                    let (a, b) = ((m - 1000) / 64, (m - 1000) % 64);
+                    vec![
+                        Cmd::Frame(f.tcp(1, 0, crate::wire::F_SYN, b"")),
+                        Cmd::Frame(f.tcp(2, c, crate::wire::F_PSH | crate::wire::F_ACK, &pl[..a])),
+                        Cmd::Frame(f.tcp(2 + a as u32, c, crate::wire::F_PSH | crate::wire::F_ACK, &pl[a..b])),
+                        Cmd::Frame(f.tcp(2 + b as u32, c, crate::wire::F_PSH | crate::wire::F_ACK, &pl[b..])),
+                    ]
+                }
                 m => {
                     let cut = m - 2;
                     vec![
@@ -298,10 +335,44 @@ pub fn run(rep: &mut Report, thorough: bool) {
                 }
             }
         },
-        |_it: &Item, _s: &mut Sink| {},
+        |it: &Item, sk: &mut Sink| {
+            // a complete request whose leading bytes complete signature X is answered by X's
+            // responder (identified from the shape of the reply), not by another one
+            let (pi, _fi, mode) = scen[it.idx as usize];
+            let pl = &pls[pi];
+            if let crate::sig::Dispatch::Matched(p, _, _) = crate::sig::dispatch(&sigs, &pl.bytes, mode == 0) {
+                let want = match p {
+                    crate::sig::Proto::Http => "http",
+                    crate::sig::Proto::Ssh => "ssh",
+                    crate::sig::Proto::Ghost => "ghost",
+                    crate::sig::Proto::Stun => "stun",
+                    crate::sig::Proto::RpcTcp | crate::sig::Proto::RpcUdp => "rpc",
+                    crate::sig::Proto::Smb1 | crate::sig::Proto::Smb2 => "smb",
+                };
+                for o in it.outs.iter().skip(1) {
+                    if let Some((_, app)) = o.reply.as_deref().and_then(crate::mask::app_payload) {
+                        if app.is_empty() {
+                            continue;
+                        }
+                        let got = responder_of(&app);
+                        if got != want {
+                            sk.violation(Violation {
+                                prop: "C10".into(),
+                                key: format!("answered-by:{}-instead-of:{}", got, want),
+                                what: format!("payload '{}' completes the {} signature but is answered by the {} responder: {}", pl.name, want, got, crate::wire::hex(&app[..app.len().min(48)])),
+                                cfg: cfg.clone(),
+                                cmds: it.cmds.to_vec(),
+                                idx: it.idx,
+                                stage: "observable".into(),
+                            });
+                        }
+                    }
+                }
+            }
+        },
         &mut rep.sink,
     );
-    rep.stage("observable", "corpus payloads x {UDP, TCP whole, TCP cut at every offset inside the signature} x 3 port pairs x {v4,v6}", scen.len() as u64, t0);
+    rep.stage("observable", "corpus payloads x {UDP, TCP whole, TCP cut at every offset inside the signature, TCP cut twice inside the signature} x 3 port pairs x {v4,v6}", scen.len() as u64, t0);
     // the decision is made by the LEADING bytes of the stream: once they complete no signature,
     // nothing that follows (in the same or in later segments) may be answered by a
     // signature-dispatched responder; judged by the reference model on every segment
@@ -389,7 +460,8 @@ pub fn run(rep: &mut Report, thorough: bool) {
             near.push((format!("{}:tailA5x{}", pl.name, t), w));
         }
     }
-    let responder = |rep: &[u8]| -> &'static str {
+    let responder = |rep: &[u8]| -> &'static str { responder_of(rep) };
+    let _unused = |rep: &[u8]| -> &'static str {
         if rep.starts_with(b"HTTP/1.") {
             "http"
         } else if rep.starts_with(b"SSH-") {
